@@ -650,7 +650,9 @@ fn process_request_obj(request: &Request, dbs: &Arc<Databases>, client: &mut Cli
                     client,
                     &db_name,
                     &|db| {
-                        if dbs.is_primary() {
+                        // The primary decides; a secondary applies the decision the primary
+                        // broadcasts (sending it back would bounce between them forever)
+                        if dbs.is_primary() || client.is_primary() {
                             db.resolve_conflit(
                                 Change {
                                     key: key.clone(),
